@@ -15,9 +15,10 @@ from bctmc import oracles as orc
 from bctmc import named
 from bctmc.runner import guarded
 from bctmc.tally import Tally
+from bctmc import dtypes
 
 PROPERTY = 'C18'
-RULE = ('random-walk measures: every connected undirected graph over weights {1,2}, {0.5,1} and the nearly decomposable {0.002,1} (n<=5) on n<=4, binary n=5, every '
+RULE = ('element types: every routine also on int64 / int32 / uint8 / bool copies of all 3-node digraphs over {0,1} and {0,1,2}, 4-node graphs over {0,1,2}, 5-node binary graphs (same values as for float64; integers must not raise, a boolean matrix may be rejected with TypeError); random-walk measures: every connected undirected graph over weights {1,2}, {0.5,1} and the nearly decomposable {0.002,1} (n<=5) on n<=4, binary n=5, every '
         'strongly connected binary digraph n<=4 (thorough: weights {1,2} and {0.5,1,2} on n=5); pagerank additionally x d in '
         '{0.5,0.85} x falff in {None, non-uniform}; spectral measures and findwalks: every undirected graph n<=6 (findwalks also '
         'every digraph n<=4) plus C8, K4,4, Petersen, 2xK4, 3-cube, K3,3+isolated and the structured 7-10 node family of bctmc/named.py; every network on <= 4 nodes also with self-connections; non-trivial = graph with a repeated '
@@ -59,6 +60,21 @@ def named_graphs():
     return g
 
 
+def _conn(A, d):
+    return len(A) > 1 and (ss.strongly_connected(A) if d else ss.is_connected(A))
+
+
+ETYPE_FUNCS = [
+    ('mean_first_passage_time', bct.mean_first_passage_time, _conn),
+    ('diffusion_efficiency', bct.diffusion_efficiency, _conn),
+    ('pagerank_centrality[.85]', lambda A: bct.pagerank_centrality(A, 0.85), None),
+    ('pagerank_centrality[.5,falff]', lambda A: bct.pagerank_centrality(A, 0.5, falff=np.arange(1.0, len(A) + 1)), None),
+    ('subgraph_centrality', bct.subgraph_centrality, lambda A, d: not d),
+    ('eigenvector_centrality_und', bct.eigenvector_centrality_und, lambda A, d: (not d) and _conn(A, d)),
+    ('findwalks', bct.findwalks, None),
+]
+
+
 def plan(ctx):
     units = []
     for name, (directed, n, alpha, tier) in RW.items():
@@ -76,6 +92,7 @@ def plan(ctx):
         for (a, b) in ss.ranges(tot, 16 if n == 4 else 1):
             units.append(('fw_dir', n, a, b))
     units.append(('named', None, 0, 0))
+    units += dtypes.units(dtypes.STD_FAMILIES)
     return units
 
 
@@ -183,6 +200,8 @@ def check_findwalks(t, A, case):
 
 
 def work(unit):
+    if unit[0] == 'etype':
+        return dtypes.work_unit(PROPERTY, ETYPE_FUNCS, unit)
     kind, name, a, b = unit
     t = Tally(PROPERTY)
     if kind == 'rw':
@@ -258,6 +277,8 @@ def work(unit):
 
 
 def replay(rec):
+    if rec['case'].get('family') == 'element_types':
+        return dtypes.replay(PROPERTY, ETYPE_FUNCS, rec['case'])
     t = Tally(PROPERTY)
     c = rec['case']
     A = np.array(c['A'], dtype=float)
